@@ -5,7 +5,7 @@ From XV Require Import lib.Bytes.
 Definition caps_sep_literals : list bytes := [hex "3c"].
 Definition caps_form_type_var : bytes := hex "464f524d5f54595045".
 Definition caps_id_format : bytes := hex "25732f25732f25732f25733c".
-Definition caps_id_format_args : list N := [0; 1; 2; 99]%N.
+Definition caps_id_format_args : list N := [0; 1; 2; 3]%N.
 (* identity less function: (field tested with !=, field compared with <) in order; 99 = not of that shape *)
 Definition caps_id_sort_keys : list (N * N) := [(0, 0); (1, 1); (2, 2)]%N.
 (* make(_, _, x.Len() - k): the k of every such capacity *)
